@@ -152,3 +152,7 @@ pub fn good_merge_sorted(a: &[u64], b: &[u64]) -> Vec<u64> {
     }
     out
 }
+
+// order-assuming search on an unsorted list
+pub fn bad_bisect(ids: &mut Vec<u64>, id: u64) { if let Ok(p) = ids.binary_search(&id) { ids.remove(p); } }
+pub fn good_bisect(ids: &mut Vec<u64>, id: u64) { ids.sort_unstable(); if let Ok(p) = ids.binary_search(&id) { ids.remove(p); } }
